@@ -245,7 +245,6 @@ def total_overspend(hist: Dict[str, Any], rng: random.Random) -> Optional[Dict[s
         return h
     if outs:
         r = rng.choice(outs)
-        first = min(x["ts"] for x in h["rows"])
         from rpv.gen import parse_ts
 
         earliest = min(parse_ts(x["ts"]) for x in h["rows"])
